@@ -9,6 +9,7 @@ import (
 	"github.com/sarchlab/akita/v5/mem/vm"
 	"github.com/sarchlab/akita/v5/messaging"
 
+	"verif/props/tracelog"
 	"verif/sim/kit"
 )
 
@@ -16,6 +17,38 @@ func genC27(r *kit.Rand, tier kit.Tier) Cfg {
 	c := Gen(r, tier, true)
 	c.UseAT = false
 	c.GMMU = false
+
+	// migrated pages (moved to a frame the allocation cursor still has to pass) and
+	// not-valid entries (which keep owning their frame); neither is ever requested
+	used := map[uint64]bool{}
+	for _, p := range c.Pages {
+		used[p.PPage] = true
+	}
+
+	requested := map[[2]uint64]bool{}
+	for _, q := range c.Reqs {
+		for _, op := range q.Ops {
+			requested[[2]uint64{uint64(op.PID), op.VPage}] = true
+		}
+	}
+
+	for i := range c.Pages {
+		p := &c.Pages[i]
+		if requested[[2]uint64{uint64(p.PID), p.VPage}] {
+			continue
+		}
+
+		switch r.Intn(4) {
+		case 0:
+			p.Invalid = true
+		case 1:
+			to := p.PPage + uint64(r.Range(1, 12))
+			if !used[to] {
+				used[to] = true
+				p.Moved, p.MovedTo = true, to
+			}
+		}
+	}
 
 	if r.Chance(1, 2) {
 		// requesters talk to the MMU directly: concurrent walks of one page are
@@ -151,7 +184,7 @@ func execC27(c Cfg, _ *kit.Env) kit.Outcome {
 func init() {
 	kit.Register(kit.Spec[Cfg]{
 		ID: "C27", Level: "exploration",
-		Rule: "real MMU with automatic page allocation over a random, partially pre-populated page table (1-3 processes, shared and skipped physical frames), reached directly or through TLB levels / an MMU cache by 1-3 scripted translation requesters (hot pages => concurrent walks of one page, port buffers of 1 => retry path), " +
+		Rule: "real MMU with automatic page allocation over a random, partially pre-populated page table (1-3 processes, shared and skipped physical frames, not-valid entries, pages migrated with Update to frames ahead of the allocation cursor), reached directly or through TLB levels / an MMU cache by 1-3 scripted translation requesters (hot pages => concurrent walks of one page, port buffers of 1 => retry path), " +
 			"a quarter of the runs reset the MMU in the middle of the stream; oracles: all answers for one (process, virtual page) carry one mapping, the page table holds exactly that mapping afterwards, and the physical range of every auto-allocated page is disjoint from every other page (pre-inserted or auto-allocated); " +
 			"distinct = hash of (stack, requests, events, end time, pages allocated); non-trivial = >= 2 pages were auto-allocated",
 		Assumptions: []string{"pre-inserted pages are aligned and of the table's page size"},
@@ -162,4 +195,19 @@ func init() {
 		Thorough:    kit.Budget{Runs: 1500000, WallS: 1200},
 		Gen:         genC27, Exec: execC27, Shrink: shrinkCfg,
 	})
+}
+
+// TraceRun executes a stack with a trace log attached to the engine and every port.
+func TraceRun(c Cfg) (*tracelog.Log, *World) {
+	w := Build(&c)
+	l := &tracelog.Log{}
+
+	if len(c.Steps) > 0 {
+		w.attachDriver(c.Steps)
+	}
+
+	l.Attach(w.Eng, w.Ports)
+	w.Run()
+
+	return l, w
 }
